@@ -2,6 +2,7 @@
 (configuration, sanitizer, suite, harness arguments) and the implementation-side extras."""
 from . import build as B
 from . import suites as S
+from . import extras as X
 
 Q = 'quick'
 
@@ -173,6 +174,26 @@ def runs_c19(tier):
     return [(DEF, None, lambda g, tier: S.suite_c19(g, tier), []), (DEF_NOSSE, ASAN, lambda g, tier: S.suite_c19(g, tier), [])]
 
 
+def runs_c18(tier):
+    s = lambda g, tier: S.suite_io(g, n(tier, 500, 6000))
+    return [(DEF, ASAN, s, ['--fork']), (DEF, None, s, ['--fork'])]
+
+
+def runs_c20(tier):
+    # the fault positions are enumerated by the extra; the correspondence part replays the scenarios without faults
+    def s(g, tier):
+        for i, (name, body) in enumerate(X.c20_scenarios(1)):
+            g.lines.append('f%d %s' % (i, body)); g.n += 1
+    return [(DEF, None, s, ['--fork'])]
+
+
+def runs_c15(tier):
+    # sequential reference runs of the thread-safe build against the model (the thread harness itself is the extra)
+    def s(g, tier):
+        all_ops(g, n(tier, 60, 600), big=False)
+    return [(B.thread_safe(DEF), None, s, [])]
+
+
 TB_W = ['unrolled loops, Duff devices and SSE2 bodies are modelled by the loop they unroll (seen only by the correspondence runs and sanitizers)']
 
 PROPS = {
@@ -190,6 +211,10 @@ PROPS = {
     'C12': dict(lean_modules=['M4riProofs.Props.C12'], runs=runs_c12),
     'C13': dict(lean_modules=['M4riProofs.Props.C13'], runs=runs_c13, trusted_base=TB_W),
     'C14': dict(lean_modules=['M4riProofs.Props.C14'], runs=runs_c14),
+    'C15': dict(lean_modules=['M4riProofs.Props.C15'], runs=runs_c15, extra=X.c15),
+    'C16': dict(lean_modules=['M4riProofs.Props.C16'], runs=X.c16_runs),
+    'C18': dict(lean_modules=['M4riProofs.Props.C18'], runs=runs_c18),
+    'C20': dict(lean_modules=['M4riProofs.Props.C20'], runs=runs_c20, extra=X.c20),
     'C17': dict(lean_modules=['M4riProofs.Props.C17'], runs=runs_c17),
     'C19': dict(lean_modules=['M4riProofs.Props.C19'], runs=runs_c19),
 }
